@@ -13,6 +13,8 @@ Driver for C13.  All tokens after the op kind are integers.
                                              clusterColocationProfileMutatingPod + mutateByExtendedResources;
                                              slot 0 := result (a second `mutate` re-admits it)
   probstr <name> LSTR                     spec.probability of profile <name> is the STRING LSTR (parsed by the model)
+  sel <name> <nsSel> <objSel>             the selectors of profile <name> evaluate to: 0 nil 1 empty 2 match 3 no match 4 error
+                                          (the model decides `matched` from them)
   handle <op> <sub> <isPods> <hasObj> <gateSkipRes> <rand>
                                           -> `hresp 0` (rejected) | `hresp 1` + observation block of the pod the API server
                                              STORES for slot 0 (PodMutatingHandler.Handle + JSON patch); slot 0 is kept.
@@ -263,6 +265,10 @@ def opOfCode (c : Int) : Option Op :=
   if c = 0 then some .create else if c = 1 then some .update else if c = 2 then some .delete
   else if c = 3 then some .connect else none
 
+def selOfCode (c : Int) : Option SelShape :=
+  if c = 0 then some .absent else if c = 1 then some .empty else if c = 2 then some .matches
+  else if c = 3 then some .differs else if c = 4 then some .errs else none
+
 structure St where
   cur : Option Pod := none
   old : Option Pod := none
@@ -304,6 +310,16 @@ def stepLine (st : St) (line : String) : St × List String :=
               if (pr.name : Int) = name then pr.withProbability (some (.str v)) else pr) }, [])
         else (st, ["bad-op"])
       | _ => (st, ["bad-op"])
+    | _ => (st, ["bad-op"])
+  | "sel" :: rest =>
+    match ints? rest with
+    | some [name, ns, obj] =>
+      match selOfCode ns, selOfCode obj with
+      | some a, some b =>
+        if st.profiles.any (fun pr => (pr.name : Int) = name) then
+          ({ st with profiles := st.profiles.map (fun pr => if (pr.name : Int) = name then pr.withSelectors a b else pr) }, [])
+        else (st, ["bad-op"])
+      | _, _ => (st, ["bad-op"])
     | _ => (st, ["bad-op"])
   | "handle" :: rest =>
     match ints? rest, st.cur with
